@@ -59,9 +59,10 @@ def _expand(ctx, fi, e, depth=0):
 
 def run(ctx):
     chk, repo = ctx.chk, ctx.repo
-    from .common import check_loop_variable_leaks
+    from .common import check_loop_variable_leaks, modules_defining
 
-    check_loop_variable_leaks(ctx, "R13.e", ("job_shop_lib.reinforcement_learning._reward_observers",), "the reward-observer")
+    scope = modules_defining(ctx, "job_shop_lib.reinforcement_learning", lambda n: n.endswith("Reward") or n == "RewardObserver")
+    check_loop_variable_leaks(ctx, "R13.e", scope, "the reward-observer")
     for rid, txt in (
         ("R13.a", "every reward's update appends exactly one value to rewards on every path; reset empties; last_reward = rewards[-1]"),
         ("R13.b", "step returns reward_function.last_reward read after the dispatch; multi env passes it through"),
